@@ -282,6 +282,26 @@ impl Memory {
     /// Consumes the memory and returns all values that are registered in it.
     #[must_use]
     pub fn all_values(self) -> Vec<RuntimeBoxedVal> {
+        #[cfg(feature = "verif-hooks")]
+        if crate::verif_hooks::active() {
+            // Same traversal as below, but with the key order owned by the hook.
+            let mut values = Vec::new();
+            let mut constants: Vec<_> = self.constant_offsets.into_iter().collect();
+            crate::verif_hooks::permute_by("memory.constant_offsets", &mut constants, |(k, _)| *k);
+            for (_, more) in constants {
+                values.extend(more.into_iter().map(|s| s.data));
+            }
+            let mut symbolics: Vec<_> = self.symbolic_offsets.into_iter().collect();
+            crate::verif_hooks::permute_by("memory.symbolic_offsets", &mut symbolics, |(k, _)| {
+                (k.instruction_pointer(), k.size(), format!("{k}"))
+            });
+            for (key, more) in symbolics {
+                values.push(key);
+                values.extend(more.into_iter().map(|s| s.data));
+            }
+            return values;
+        }
+
         let mut values = Vec::new();
         self.constant_offsets
             .into_values()
